@@ -1,0 +1,148 @@
+//go:build verif
+
+package ecs
+
+// Contracts for the single-entity structural operations of world_internal.go (C01, C09, C10).
+//
+// What is stated: the bookkeeping that makes "every alive entity has exactly the components the
+// history implies" hold at the level of the entity index and the rows of the tables: after
+// World.remove / add / exchange the entity sits in the last row of the destination table, its
+// index entry points there, the source table lost exactly its row, the entity that was swapped
+// into the vacated row has its index entry updated, and no other index entry changed.
+// Component bytes (what Set / CopyAll move) are data plane and not described.
+//
+// The search for the destination table (graph walk, archetype and table creation, table
+// recycling) is trusted here: its contract says which parts of the storage it may change and
+// that it neither moves rows nor touches the entity index. It may reallocate storage.tables and
+// storage.archetypes: pointers into them obtained before the call are stale afterwards.
+
+//@ pred tablesIdent(s *storage) :=
+//@   forall t uint32 :: __trigger(s.tables[t].id) && (uint64(t) < uint64(len(s.tables)) ==> s.tables[t].id == tableID(t))
+
+//@ func (*storage).findOrCreateTableRemove
+//@   serves C01
+//@   trusted
+//@   requires oldTable != nil && uint64(oldTable.id) < uint64(len(s.tables)) && __same(oldTable, &s.tables[oldTable.id])
+//@   ensures  result: result0 != nil && uint64(result0.id) < uint64(len(s.tables)) && __same(result0, &s.tables[result0.id]) && result0.id != old(oldTable.id)
+//@   ensures  grown: len(s.tables) >= old(len(s.tables)) && uint64(len(s.tables)) < 1<<32 && len(s.archetypes) >= old(len(s.archetypes))
+//@   ensures  ident: tablesIdent(s)
+//@   ensures  kept: forall t uint32 :: __trigger(s.tables[t].len) && __trigger(s.tables[t].archetype) && (uint64(t) < uint64(old(len(s.tables))) ==> s.tables[t].len == old(s.tables[t].len) && s.tables[t].cap == old(s.tables[t].cap) && s.tables[t].archetype == old(s.tables[t].archetype))
+//@   ensures  rows: forall t uint32, r uint32 :: __trigger(rowEnt(&s.tables[t])[r]) && (uint64(t) < uint64(old(len(s.tables))) ==> rowEnt(&s.tables[t])[r] == old(rowEnt(&s.tables[t])[r]))
+//@   ensures  fresh-empty: forall t uint32 :: __trigger(s.tables[t].len) && (uint64(old(len(s.tables))) <= uint64(t) && uint64(t) < uint64(len(s.tables)) ==> s.tables[t].len == 0 && s.tables[t].len <= s.tables[t].cap && uint64(s.tables[t].archetype) < uint64(len(s.archetypes)))
+//@   ensures  room: result0.len < 1<<31 && result1 != nil
+//@   ensures  archs: forall a uint32 :: __trigger(s.archetypes[a].archetypeData) && (uint64(a) < uint64(len(s.archetypes)) ==> s.archetypes[a].archetypeData != nil)
+//@   modifies s.tables, s.tables[*].isFree, s.tables[*].relationIDs, s.tables[*].columns, s.tables[*].components, s.tables[*].ids, s.archetypes, s.archetypes[*], s.archetypesData, s.allArchetypes, s.componentIndex, s.components, s.graph, s.slices, s.cache, *outMask
+
+//@ func (*storage).findOrCreateTableAdd
+//@   serves C01
+//@   trusted
+//@   requires oldTable != nil && uint64(oldTable.id) < uint64(len(s.tables)) && __same(oldTable, &s.tables[oldTable.id])
+//@   ensures  result: result0 != nil && uint64(result0.id) < uint64(len(s.tables)) && __same(result0, &s.tables[result0.id]) && result0.id != old(oldTable.id)
+//@   ensures  grown: len(s.tables) >= old(len(s.tables)) && uint64(len(s.tables)) < 1<<32 && len(s.archetypes) >= old(len(s.archetypes))
+//@   ensures  ident: tablesIdent(s)
+//@   ensures  kept: forall t uint32 :: __trigger(s.tables[t].len) && __trigger(s.tables[t].archetype) && (uint64(t) < uint64(old(len(s.tables))) ==> s.tables[t].len == old(s.tables[t].len) && s.tables[t].cap == old(s.tables[t].cap) && s.tables[t].archetype == old(s.tables[t].archetype))
+//@   ensures  rows: forall t uint32, r uint32 :: __trigger(rowEnt(&s.tables[t])[r]) && (uint64(t) < uint64(old(len(s.tables))) ==> rowEnt(&s.tables[t])[r] == old(rowEnt(&s.tables[t])[r]))
+//@   ensures  fresh-empty: forall t uint32 :: __trigger(s.tables[t].len) && (uint64(old(len(s.tables))) <= uint64(t) && uint64(t) < uint64(len(s.tables)) ==> s.tables[t].len == 0 && s.tables[t].len <= s.tables[t].cap && uint64(s.tables[t].archetype) < uint64(len(s.archetypes)))
+//@   ensures  room: result0.len < 1<<31 && result1 != nil
+//@   ensures  archs: forall a uint32 :: __trigger(s.archetypes[a].archetypeData) && (uint64(a) < uint64(len(s.archetypes)) ==> s.archetypes[a].archetypeData != nil)
+//@   ensures  targets: forall k int :: __trigger(relations[k].target) && (0 <= k && k < len(relations) ==> uint64(relations[k].target.id) < uint64(len(s.isTarget)))
+//@   modifies s.tables, s.tables[*].isFree, s.tables[*].relationIDs, s.tables[*].columns, s.tables[*].components, s.tables[*].ids, s.archetypes, s.archetypes[*], s.archetypesData, s.allArchetypes, s.componentIndex, s.components, s.graph, s.slices, s.cache, *outMask
+
+
+//@ func (*storage).findOrCreateTable
+//@   serves C01
+//@   trusted
+//@   requires oldTable != nil && uint64(oldTable.id) < uint64(len(s.tables)) && __same(oldTable, &s.tables[oldTable.id])
+//@   ensures  result: result0 != nil && uint64(result0.id) < uint64(len(s.tables)) && __same(result0, &s.tables[result0.id]) && result0.id != old(oldTable.id)
+//@   ensures  grown: len(s.tables) >= old(len(s.tables)) && uint64(len(s.tables)) < 1<<32 && len(s.archetypes) >= old(len(s.archetypes))
+//@   ensures  ident: tablesIdent(s)
+//@   ensures  kept: forall t uint32 :: __trigger(s.tables[t].len) && __trigger(s.tables[t].archetype) && (uint64(t) < uint64(old(len(s.tables))) ==> s.tables[t].len == old(s.tables[t].len) && s.tables[t].cap == old(s.tables[t].cap) && s.tables[t].archetype == old(s.tables[t].archetype))
+//@   ensures  rows: forall t uint32, r uint32 :: __trigger(rowEnt(&s.tables[t])[r]) && (uint64(t) < uint64(old(len(s.tables))) ==> rowEnt(&s.tables[t])[r] == old(rowEnt(&s.tables[t])[r]))
+//@   ensures  fresh-empty: forall t uint32 :: __trigger(s.tables[t].len) && (uint64(old(len(s.tables))) <= uint64(t) && uint64(t) < uint64(len(s.tables)) ==> s.tables[t].len == 0 && s.tables[t].len <= s.tables[t].cap && uint64(s.tables[t].archetype) < uint64(len(s.archetypes)))
+//@   ensures  room: result0.len < 1<<31 && result1 != nil
+//@   ensures  archs: forall a uint32 :: __trigger(s.archetypes[a].archetypeData) && (uint64(a) < uint64(len(s.archetypes)) ==> s.archetypes[a].archetypeData != nil)
+//@   ensures  targets: forall k int :: __trigger(relations[k].target) && (0 <= k && k < len(relations) ==> uint64(relations[k].target.id) < uint64(len(s.isTarget)))
+//@   modifies s.tables, s.tables[*].isFree, s.tables[*].relationIDs, s.tables[*].columns, s.tables[*].components, s.tables[*].ids, s.archetypes, s.archetypes[*], s.archetypesData, s.allArchetypes, s.componentIndex, s.components, s.graph, s.slices, s.cache, *outMask
+
+
+//@ func (*storage).registerTargets
+//@   serves C04 C01
+//@   requires forall k int :: __trigger(relations[k].target) && (0 <= k && k < len(relations) ==> uint64(relations[k].target.id) < uint64(len(s.isTarget)))
+//@   loop 1 invariant done: forall k int :: 0 <= k && k < __idx ==> s.isTarget[relations[k].target.id]
+//@   loop 1 invariant len: len(s.isTarget) == old(len(s.isTarget))
+//@   ensures  flagged: forall k int :: 0 <= k && k < len(relations) ==> s.isTarget[relations[k].target.id]
+//@   ensures  len: len(s.isTarget) == old(len(s.isTarget))
+//@   modifies s.isTarget[*]
+
+//@ func (*table).Column
+//@   serves C01
+//@   dataplane
+//@   modifies nothing
+
+//@ func (*table).Set
+//@   serves C01
+//@   dataplane
+//@   modifies nothing
+
+//@ func (*World).remove
+//@   serves C01 C09 C10
+//@   maypanic
+//@   requires indexInv(&w.storage) && tablesIdent(&w.storage) && epIssued(&w.storage.entityPool)[entity]
+//@   requires w.storage.observers != nil && obsShape(w.storage.observers) && lockInv(&w.storage.locks) && w.storage.locks.locks.bits != 0xffffffffffffffff
+//@   ensures  source: s0len(w, old(w.storage.entities[entity.id].table)) == old(w.storage.tables[w.storage.entities[entity.id].table].len) - 1
+//@   ensures  placed: w.storage.entities[entity.id].table != old(w.storage.entities[entity.id].table)
+//@        && uint64(w.storage.entities[entity.id].table) < uint64(len(w.storage.tables))
+//@        && w.storage.entities[entity.id].row == w.storage.tables[w.storage.entities[entity.id].table].len - 1
+//@        && rowEnt(&w.storage.tables[w.storage.entities[entity.id].table])[w.storage.entities[entity.id].row] == entity
+//@   ensures  swapped: old(w.storage.entities[entity.id].row) != old(w.storage.tables[w.storage.entities[entity.id].table].len) - 1 ==>
+//@        w.storage.entities[old(rowEnt(&w.storage.tables[w.storage.entities[entity.id].table])[w.storage.tables[w.storage.entities[entity.id].table].len-1]).id].table == old(w.storage.entities[entity.id].table)
+//@        && w.storage.entities[old(rowEnt(&w.storage.tables[w.storage.entities[entity.id].table])[w.storage.tables[w.storage.entities[entity.id].table].len-1]).id].row == old(w.storage.entities[entity.id].row)
+//@        && rowEnt(&w.storage.tables[old(w.storage.entities[entity.id].table)])[old(w.storage.entities[entity.id].row)] == old(rowEnt(&w.storage.tables[w.storage.entities[entity.id].table])[w.storage.tables[w.storage.entities[entity.id].table].len-1])
+//@   ensures  others: len(w.storage.entities) == old(len(w.storage.entities)) && (forall i uint32 :: __trigger(w.storage.entities[i].row) && (uint64(i) < uint64(len(w.storage.entities)) && entityID(i) != entity.id
+//@        && entityID(i) != old(rowEnt(&w.storage.tables[w.storage.entities[entity.id].table])[w.storage.tables[w.storage.entities[entity.id].table].len-1]).id ==> w.storage.entities[i] == old(w.storage.entities[i])))
+//@   ensures  alive: forall h Entity :: alive(&w.storage.entityPool, h) == old(alive(&w.storage.entityPool, h))
+//@   ensures  locks: w.storage.locks.locks == old(w.storage.locks.locks)
+
+//@ func (*World).add
+//@   serves C01 C09 C10
+//@   maypanic
+//@   requires indexInv(&w.storage) && tablesIdent(&w.storage) && epIssued(&w.storage.entityPool)[entity]
+//@   requires w.storage.observers != nil && obsShape(w.storage.observers) && lockInv(&w.storage.locks) && w.storage.locks.locks.bits != 0xffffffffffffffff
+//@   ensures  source: s0len(w, old(w.storage.entities[entity.id].table)) == old(w.storage.tables[w.storage.entities[entity.id].table].len) - 1
+//@   ensures  placed: w.storage.entities[entity.id].table != old(w.storage.entities[entity.id].table)
+//@        && uint64(w.storage.entities[entity.id].table) < uint64(len(w.storage.tables))
+//@        && w.storage.entities[entity.id].row == w.storage.tables[w.storage.entities[entity.id].table].len - 1
+//@        && rowEnt(&w.storage.tables[w.storage.entities[entity.id].table])[w.storage.entities[entity.id].row] == entity
+//@   ensures  swapped: old(w.storage.entities[entity.id].row) != old(w.storage.tables[w.storage.entities[entity.id].table].len) - 1 ==>
+//@        w.storage.entities[old(rowEnt(&w.storage.tables[w.storage.entities[entity.id].table])[w.storage.tables[w.storage.entities[entity.id].table].len-1]).id].table == old(w.storage.entities[entity.id].table)
+//@        && w.storage.entities[old(rowEnt(&w.storage.tables[w.storage.entities[entity.id].table])[w.storage.tables[w.storage.entities[entity.id].table].len-1]).id].row == old(w.storage.entities[entity.id].row)
+//@        && rowEnt(&w.storage.tables[old(w.storage.entities[entity.id].table)])[old(w.storage.entities[entity.id].row)] == old(rowEnt(&w.storage.tables[w.storage.entities[entity.id].table])[w.storage.tables[w.storage.entities[entity.id].table].len-1])
+//@   ensures  others: len(w.storage.entities) == old(len(w.storage.entities)) && (forall i uint32 :: __trigger(w.storage.entities[i].row) && (uint64(i) < uint64(len(w.storage.entities)) && entityID(i) != entity.id
+//@        && entityID(i) != old(rowEnt(&w.storage.tables[w.storage.entities[entity.id].table])[w.storage.tables[w.storage.entities[entity.id].table].len-1]).id ==> w.storage.entities[i] == old(w.storage.entities[i])))
+//@   ensures  alive: forall h Entity :: alive(&w.storage.entityPool, h) == old(alive(&w.storage.entityPool, h))
+//@   ensures  istarget: forall k int :: 0 <= k && k < len(relations) ==> w.storage.isTarget[relations[k].target.id]
+//@   ensures  locks: w.storage.locks.locks == old(w.storage.locks.locks)
+
+
+//@ func (*World).exchange
+//@   serves C01 C09 C10
+//@   maypanic
+//@   requires indexInv(&w.storage) && tablesIdent(&w.storage) && epIssued(&w.storage.entityPool)[entity]
+//@   requires w.storage.observers != nil && obsShape(w.storage.observers) && lockInv(&w.storage.locks) && w.storage.locks.locks.bits != 0xffffffffffffffff
+//@   ensures  source: s0len(w, old(w.storage.entities[entity.id].table)) == old(w.storage.tables[w.storage.entities[entity.id].table].len) - 1
+//@   ensures  placed: w.storage.entities[entity.id].table != old(w.storage.entities[entity.id].table)
+//@        && uint64(w.storage.entities[entity.id].table) < uint64(len(w.storage.tables))
+//@        && w.storage.entities[entity.id].row == w.storage.tables[w.storage.entities[entity.id].table].len - 1
+//@        && rowEnt(&w.storage.tables[w.storage.entities[entity.id].table])[w.storage.entities[entity.id].row] == entity
+//@   ensures  swapped: old(w.storage.entities[entity.id].row) != old(w.storage.tables[w.storage.entities[entity.id].table].len) - 1 ==>
+//@        w.storage.entities[old(rowEnt(&w.storage.tables[w.storage.entities[entity.id].table])[w.storage.tables[w.storage.entities[entity.id].table].len-1]).id].table == old(w.storage.entities[entity.id].table)
+//@        && w.storage.entities[old(rowEnt(&w.storage.tables[w.storage.entities[entity.id].table])[w.storage.tables[w.storage.entities[entity.id].table].len-1]).id].row == old(w.storage.entities[entity.id].row)
+//@        && rowEnt(&w.storage.tables[old(w.storage.entities[entity.id].table)])[old(w.storage.entities[entity.id].row)] == old(rowEnt(&w.storage.tables[w.storage.entities[entity.id].table])[w.storage.tables[w.storage.entities[entity.id].table].len-1])
+//@   ensures  others: len(w.storage.entities) == old(len(w.storage.entities)) && (forall i uint32 :: __trigger(w.storage.entities[i].row) && (uint64(i) < uint64(len(w.storage.entities)) && entityID(i) != entity.id
+//@        && entityID(i) != old(rowEnt(&w.storage.tables[w.storage.entities[entity.id].table])[w.storage.tables[w.storage.entities[entity.id].table].len-1]).id ==> w.storage.entities[i] == old(w.storage.entities[i])))
+//@   ensures  alive: forall h Entity :: alive(&w.storage.entityPool, h) == old(alive(&w.storage.entityPool, h))
+//@   ensures  istarget: forall k int :: 0 <= k && k < len(relations) ==> w.storage.isTarget[relations[k].target.id]
+//@   ensures  locks: w.storage.locks.locks == old(w.storage.locks.locks)
+
+
+//@ spec func s0len(w *World, t tableID) uint32 := w.storage.tables[t].len
